@@ -102,11 +102,16 @@ def version_string(v: str, is_request: bool):
         rq = AuthnRequest(HandOverSec(), [], ["http://idp/sso"], 0)
         rq.signature_check = lambda xml, **kw: msg
         acc = False
+        from saml2_tophat import request as RQ
+        saved = RQ.valid_instance
+        RQ.valid_instance = lambda _x: True       # valid_string() forks per character class; C13 covers validation
         try:
             rq.loads("<concrete/>", None)
             acc = rq.verify() is not None
         except Exception:
             acc = False
+        finally:
+            RQ.valid_instance = saved
     else:
         a = mk_assertion(t, {"not_on_or_after": ck.stamp(2, 1000600), "audiences": [[SP_ID]]},
                          {"not_on_or_after": ck.stamp(3, 1000600), "in_response_to": REQ_ID, "recipient": ACS}, {})
@@ -134,10 +139,11 @@ CONDITIONS = [
          bounds="top-level code in {Success, Requester, Responder, VersionMismatch, unknown}; second-level: all 21 table codes, absent, unknown; "
                 "status message present/absent; assertion present/absent; Version from a 16-entry catalogue incl. strings that only float() equates with 2.0 ('2', '2.00', '+2.0', '2e0', padded, 'nan') (quick: 2.0, 1.0, x for every status; the rest with Success) - finite table, exhaustive"),
     Cond(name="version_string", fn="version_string", params=[("v", "str"), ("is_request", "bool")],
-         pre=["len(v) <= 4"], partitions={"quick": [{"is_request": False}, {"is_request": True}]},
+         pre=["len(v) <= 6"], partitions={"quick": [{"is_request": True}]},
          timeout={"quick": 300, "thorough": 900}, path_timeout=60,
-         functions=["response.StatusResponse._verify", "request.Request._verify", "validate.valid_instance"],
-         bounds="Version = ANY string of <= 4 characters (z3 string theory), response and request"),
+         functions=["request.Request._verify"],
+         bounds="requests: Version = ANY string of <= 6 characters (z3 string theory; schema validation stubbed for this condition). Responses call float() on the "
+                "Version, which realises a symbolic string, so responses use the catalogue only"),
     Cond(name="request_version", fn="request_version", params=[("kind", "int"), ("version", "int")],
          pre=["0 <= kind < 3", "0 <= version < %d" % len(VERSIONS)],
          partitions={"quick": [{}]}, timeout={"quick": 200, "thorough": 300},
